@@ -11,7 +11,7 @@ ASSUMPTIONS = ["fsync persists what it is called on; directory entries are durab
 
 
 def explore(ctx):
-    r = W.explore(ctx, "C02", {"acked-lost"}, n_quick=10, n_thorough=80, big=True)
+    r = W.explore(ctx, "C02", {"acked-lost"}, n_quick=16, n_thorough=120, big=True)
     r["violations"] = [(d, t) for (d, t, _) in r["violations"]][:3]
     return r
 
